@@ -26,6 +26,7 @@ pub const EDITS: &[&str] = &[
     "already-spent-input",
     "duplicate-input-in-tx",
     "duplicate-input-across-txs",
+    "duplicate-input-across-txs-zero-lead",
     "type-spv",
     "type-blockstake",
     "type-atr",
@@ -134,6 +135,18 @@ pub fn make_hostile(w: &mut World, ledger: &RefLedger, spent: &[SlipRef], edit: 
             let t1 = make_tx(&vk, &[vin.clone()], &[(ak.pk, vin.amount)], ts + tag, &data);
             let tag2 = w.next_ts_tag();
             let t2 = make_tx(&vk, &[vin.clone()], &[(vk.pk, vin.amount)], ts + tag2, &tag2.to_le_bytes());
+            txs.push(t1);
+            txs.push(t2);
+        }
+        "duplicate-input-across-txs-zero-lead" => {
+            // the same double spend, but in both transactions the contested output comes second, after a
+            // zero-amount input (legal: zero-value inputs are never looked up)
+            let mut zero = vin.clone();
+            zero.amount = 0;
+            zero.slip_index = 0;
+            let t1 = make_tx(&vk, &[zero.clone(), vin.clone()], &[(ak.pk, vin.amount)], ts + tag, &data);
+            let tag2 = w.next_ts_tag();
+            let t2 = make_tx(&vk, &[zero, vin.clone()], &[(vk.pk, vin.amount)], ts + tag2, &tag2.to_le_bytes());
             txs.push(t1);
             txs.push(t2);
         }
@@ -303,7 +316,7 @@ impl Scenario for C01 {
                 return r;
             }
         };
-        if plan.edit == "duplicate-input-across-txs" && plan.path == "pool" {
+        if plan.edit.starts_with("duplicate-input-across-txs") && plan.path == "pool" {
             // in the pool the second of two conflicting txs is the hostile one
         }
         let creator_pk = w.keys[0].pk;
@@ -321,7 +334,7 @@ impl Scenario for C01 {
                     }
                 }
                 trace.u64(accepted);
-                let hostile_in_pool = if plan.edit == "duplicate-input-across-txs" { accepted >= 2 } else { accepted >= 1 };
+                let hostile_in_pool = if plan.edit.starts_with("duplicate-input-across-txs") { accepted >= 2 } else { accepted >= 1 };
                 if hostile_in_pool {
                     r.violate(format!("C01|accepted|{}|pool", plan.edit), format!("hostile transaction ({}) entered the pool", plan.edit));
                 }
